@@ -3,6 +3,7 @@ package main
 // Fact kinds of the areas Checkers / Scatter (properties C10, C11):
 //
 //	ssf_cond_table   – the condition table of filter.StoreStateFilter.anyConditionMatch
+//	func_has_text    – a function body contains a given piece of source text
 //	create_op_sites  – every operator.Create*Operator call site of some directories, with the filter
 //	                   constructors that appear in the enclosing function and in the functions named
 //	                   as its guards
@@ -119,6 +120,18 @@ func init() {
 		}
 		return fmt.Sprintf("-- %s\ndef %s : List (List Nat) := [%s]",
 			strings.Join(names, "\n-- "), f.Lean, strings.Join(rows, ", ")), nil
+	})
+
+	// func_has_text: the (gofmt-printed) body of the function contains args.text
+	Register("func_has_text", func(repo string, f Fact) (string, error) {
+		fset, fd, err := findFunc(repo, f.File, f.Func)
+		if err != nil {
+			return "", err
+		}
+		if f.Args["text"] == "" {
+			return "", fmt.Errorf("func_has_text needs args.text")
+		}
+		return fmt.Sprintf("def %s : Bool := %v", f.Lean, strings.Contains(exprString(fset, fd.Body), f.Args["text"])), nil
 	})
 
 	Register("create_op_sites", func(repo string, f Fact) (string, error) {
